@@ -341,10 +341,15 @@ def main(tier):
         v.broke('correspondence:implementation-run-failed')
         v.cov['broken_detail'] = log[-3000:]
         return v.finish()
+    drho = {'rows': 0, 'equal_to_true_derivative': 0, 'equal_to_code_formula_without_ln_term': 0}
     for c, r in zip(cases, results):
         v.count_case(c, True, r.get('kind'))
+        drho['rows'] += r.get('drho_rows', 0)
+        drho['equal_to_true_derivative'] += r.get('drho_is_derivative', 0)
+        drho['equal_to_code_formula_without_ln_term'] += r.get('drho_is_code_formula', 0)
         if not r.get('ok', True):
             v.failing(r.get('sig') or 'oracle', c, r.get('msg', ''))
+    v.cov['dKS_drho_observation'] = drho      # KSfunction.derivatives()[1]; not part of the oracle (FINDINGS.md)
     if gate['build_ok']:
         bad, total = check_cases(v, wd, cases, results)
         if bad:
